@@ -836,6 +836,86 @@ func c08(x *mon.Ctx) {
 		}
 		x.Require("options-edited-between-calls", n/2-6, n/2-6, n)
 	}
+	// ---- messages that are not well-formed quotes: the boundary between two neighbouring fields moved (one shorter, the next longer:
+	//      the total length is right, no field is), a field doubled and another emptied. Under a policy that pins every field to the
+	//      value the well-formed quote has, and every TEE_TCB_SVN component to its value: no crash, and never a success — a 15-byte
+	//      TEE_TCB_SVN has no sixteenth component to be at least anything.
+	{
+		rr := x.Rand("malformed-messages")
+		n := 0
+		for rep := 0; rep < x.Pick(2, 12); rep++ {
+			qp := policyQuote(rr)
+			q, _ := ref.ParseQuote(qp.Bytes())
+			pol := ref.Policy{QeVendorID: q.QeVendorID, MinTeeTcbSvn: append([]byte{}, q.TeeTcbSvn...), MrSeam: q.MrSeam, TdAttributes: q.TdAttributes, Xfam: q.Xfam, MrTd: q.MrTd, MrConfigID: q.MrConfigID,
+				MrOwner: q.MrOwner, MrOwnerConfig: q.MrOwnerConfig, ReportData: q.ReportData, Rtmrs: q.Rtmrs[:], AnyMrTd: [][]byte{q.MrTd}}
+			if len(pol.MinTeeTcbSvn) == 16 && pol.MinTeeTcbSvn[15] == 0 {
+				continue // (the quote generator leaves no zero there; if it does, the 15-byte case says nothing)
+			}
+			type pf struct {
+				name string
+				a, b func(m *pb.QuoteV4) *[]byte
+			}
+			b := func(f func(t *pb.TDQuoteBody) *[]byte) func(m *pb.QuoteV4) *[]byte {
+				return func(m *pb.QuoteV4) *[]byte { return f(m.TdQuoteBody) }
+			}
+			rt := func(i int) func(m *pb.QuoteV4) *[]byte {
+				return func(m *pb.QuoteV4) *[]byte { return &m.TdQuoteBody.Rtmrs[i] }
+			}
+			pairs := []pf{
+				{"tee_tcb_svn|mr_seam", b(func(t *pb.TDQuoteBody) *[]byte { return &t.TeeTcbSvn }), b(func(t *pb.TDQuoteBody) *[]byte { return &t.MrSeam })},
+				{"tee_tcb_svn|report_data", b(func(t *pb.TDQuoteBody) *[]byte { return &t.TeeTcbSvn }), b(func(t *pb.TDQuoteBody) *[]byte { return &t.ReportData })},
+				{"tee_tcb_svn|rtmr2", b(func(t *pb.TDQuoteBody) *[]byte { return &t.TeeTcbSvn }), rt(2)},
+				{"seam_attributes|td_attributes", b(func(t *pb.TDQuoteBody) *[]byte { return &t.SeamAttributes }), b(func(t *pb.TDQuoteBody) *[]byte { return &t.TdAttributes })},
+				{"td_attributes|xfam", b(func(t *pb.TDQuoteBody) *[]byte { return &t.TdAttributes }), b(func(t *pb.TDQuoteBody) *[]byte { return &t.Xfam })},
+				{"xfam|mr_td", b(func(t *pb.TDQuoteBody) *[]byte { return &t.Xfam }), b(func(t *pb.TDQuoteBody) *[]byte { return &t.MrTd })},
+				{"mr_td|mr_config_id", b(func(t *pb.TDQuoteBody) *[]byte { return &t.MrTd }), b(func(t *pb.TDQuoteBody) *[]byte { return &t.MrConfigId })},
+				{"mr_owner|mr_owner_config", b(func(t *pb.TDQuoteBody) *[]byte { return &t.MrOwner }), b(func(t *pb.TDQuoteBody) *[]byte { return &t.MrOwnerConfig })},
+				{"rtmr0|rtmr1", rt(0), rt(1)}, {"rtmr2|rtmr3", rt(2), rt(3)}, {"rtmr3|report_data", rt(3), b(func(t *pb.TDQuoteBody) *[]byte { return &t.ReportData })},
+				{"header.pce_svn|header.qe_svn", func(m *pb.QuoteV4) *[]byte { return &m.Header.PceSvn }, func(m *pb.QuoteV4) *[]byte { return &m.Header.QeSvn }},
+				{"header.qe_vendor_id|header.user_data", func(m *pb.QuoteV4) *[]byte { return &m.Header.QeVendorId }, func(m *pb.QuoteV4) *[]byte { return &m.Header.UserData }},
+			}
+			for _, p := range pairs {
+				for _, k := range []int{1, -1, 2, 8, -8, 1000, -1000} {
+					m := mon.BuildMessage(q)
+					fa, fb := p.a(m), p.b(m)
+					switch {
+					case k == 1000: // the first doubled, the second emptied (and the other way round)
+						*fa, *fb = append(append([]byte{}, *fa...), *fa...), []byte{}
+					case k == -1000:
+						*fa, *fb = []byte{}, append(append([]byte{}, *fb...), *fb...)
+					case k > 0: // the first grows by k bytes (zeros), the second loses its last k
+						if len(*fb) < k {
+							continue
+						}
+						*fa, *fb = append(append([]byte{}, *fa...), make([]byte, k)...), (*fb)[:len(*fb)-k]
+					default:
+						if len(*fa) < -k {
+							continue
+						}
+						*fa, *fb = (*fa)[:len(*fa)+k], append(append([]byte{}, *fb...), make([]byte, -k)...)
+					}
+					opts := toOptions(&pol)
+					var verr error
+					pv, st := mon.Guard(func() { verr = validate.TdxQuote(m, opts) })
+					param := fmt.Sprintf("%s/%+d#%d", p.name, k, rep)
+					prob := ""
+					switch {
+					case pv != "":
+						prob = "validation panics on a message whose field lengths are wrong: " + pv + "\n" + st
+					case verr == nil:
+						prob = "validation succeeded for a message in which " + p.name + " do not have their sizes, under a policy that pins every field of the well-formed quote"
+					}
+					if prob != "" {
+						wire, _ := proto.Marshal(m)
+						x.Violation("malformed-message", param, prob, "none", map[string]any{"edit": param, "wire": wire})
+					}
+					x.Note("malformed-message", param, verr == nil, pv != "", prob == "")
+					n++
+				}
+			}
+		}
+		x.Require("malformed-message", 0, n, n)
+	}
 	x.Require("td-attributes-bit", 4, 100, 128)
 	x.Require("min-qe-svn", 15, 8, 25)
 	x.Require("min-pce-svn", 15, 8, 25)
